@@ -450,7 +450,7 @@ func c04cases(thorough bool) []c04case {
 func C04(tier string) int {
 	res := NewResult("C04", tier, "exploration")
 	cases := c04cases(res.Thorough())
-	res.Rule = fmt.Sprintf("each handled inbox activity type with every sequence of 1..%d objects / targets / actors from per-type alphabets (IRI and embedded, owned and foreign, Collection / OrderedCollection / non-collection targets, absent / unordered / ordered likes and shares, missing documents), OnFollow in {nothing, accept, reject}, Follow object in {this actor, another local actor, remote, list, embedded}, x callback configuration {none, wrapped, wrapped failing, 'other' override}, plus single-hook configurations (exactly one other type X wrapped / overridden, for all 11 X): %d requests; a reference model written from the documentation is applied to the initial state and diffed against the real final state; deliveries and callback order are compared too; plus every ordered pair of single-valued activities (up to 4 per type and OnFollow mode; thorough: all) delivered one after the other to ONE application with the model applied step by step, and single faults inside the default effect", map[bool]int{false: 2, true: 3}[res.Thorough()], len(cases))
+	res.Rule = fmt.Sprintf("each handled inbox activity type with every sequence of 1..%d objects / targets / actors from per-type alphabets (IRI and embedded, owned and foreign, Collection / OrderedCollection / non-collection targets, absent / unordered / ordered likes and shares, missing documents), OnFollow in {nothing, accept, reject}, Follow object in {this actor, another local actor, remote, list, embedded}, x callback configuration {none, wrapped, wrapped failing, 'other' override}, plus single-hook configurations (exactly one other type X wrapped / overridden, for all 11 X): %d requests; a reference model written from the documentation is applied to the initial state and diffed against the real final state; deliveries and callback order are compared too; plus every ordered pair of single-valued activities (up to 4 per type and OnFollow mode; thorough: all) delivered one after the other to ONE application (the application's OnFollow mode and callback configuration - none / every type overridden by 'other' functions - may change between the two) with the model applied step by step, and single faults inside the default effect", map[bool]int{false: 2, true: 3}[res.Thorough()], len(cases))
 	res.Assumptions = []string{"order among several followers added by one Follow is not asserted", "where a later object/target makes the effect fail, the effect on earlier ones (list order) stays, as the code does; the statement does not forbid it",
 		"top-level @context of stored values is not compared (C01)"}
 	var mu sync.Mutex
@@ -593,8 +593,8 @@ func C04(tier string) int {
 	var hcases []c04case
 	perType := map[string]int{}
 	for _, c := range cases {
-		if c.cb != ap.CBNone || c.keep != "" {
-			continue
+		if (c.cb != ap.CBNone && c.cb != ap.CBOther) || c.keep != "" {
+			continue // plain default callbacks, or every type overridden by the application's 'other' functions
 		}
 		if _, many := c.body["object"].([]interface{}); many {
 			continue
@@ -605,7 +605,10 @@ func C04(tier string) int {
 		if _, many := c.body["actor"].([]interface{}); many {
 			continue
 		}
-		k := fmt.Sprintf("%s|%d", c.typ, c.onFollow)
+		k := fmt.Sprintf("%s|%d|%d", c.typ, c.onFollow, c.cb)
+		if c.cb == ap.CBOther && perType[k] >= 1 && !res.Thorough() {
+			continue
+		}
 		if perType[k] >= 4 && !res.Thorough() {
 			continue
 		}
@@ -623,14 +626,9 @@ func C04(tier string) int {
 		}
 		var hvs []hv
 		for _, c2 := range hcases {
-			if c2.onFollow != c1.onFollow && (c1.typ == "Follow" || c2.typ == "Follow") {
-				continue
-			}
-			of := c1.onFollow
-			if c2.typ == "Follow" {
-				of = c2.onFollow
-			}
-			a := (&Scenario{Kind: ap.Both, Tweak: func(a *ap.App) { c04world(a); a.OnFollow = of }}).World()
+			// the application's configuration (OnFollow, hooks) may CHANGE between the two requests: the
+			// library asks for it on every request and must not remember an earlier answer
+			a := (&Scenario{Kind: ap.Both, Tweak: func(a *ap.App) { c04world(a) }}).World()
 			ref := RefOf(a)
 			second := c2
 			b2 := deepCopy(c2.body).(map[string]interface{})
@@ -638,6 +636,7 @@ func C04(tier string) int {
 			second.body = b2
 			names := []string{c1.typ + " " + shortJSON(c1.body), c2.typ + " " + shortJSON(b2)}
 			for step, c := range []c04case{c1, second} {
+				a.OnFollow, a.Callbacks = c.onFollow, c.cb
 				fail, _ := modelInbox(ref, a, c)
 				sc := &Scenario{Name: "c04/history", Kind: ap.Both, Entry: "PostInbox", URL: inbox(Alice), Body: c.body}
 				out := sc.On(a, nil)
